@@ -53,6 +53,8 @@ def run(chk):
         e7.check_projector_form(chk, "O5", pj.methods[name], pj.methods[name].params[1])
     e7.check_krylov_combination(chk, "O6", prog.func("yastn.krylov._krylov", "eigs"))
     paths = 0
+    from . import e10
+    e10.run_U(chk, ("yastn.tn.mps._dmrg", "yastn.tn.mps._env", "yastn.krylov", "yastn.tensor._krylov"), rule1="U1", rule2="U2", floor1=40, floor2=10)
     for mod, name in ((DMRG, "_dmrg_sweep_1site_"), (DMRG, "_dmrg_sweep_2site_"),
                       (COMP, "_compression_1site_sweep_"), (COMP, "_compression_2site_sweep_")):
         f = prog.func(mod, name)
